@@ -132,14 +132,14 @@ Section PLoop.
     assert (HI0 : Inv jobs (p_sol (prepare st))) by (cbn [prepare p_sol]; apply step_prepare; exact HI).
     destruct (ploop_some (measure (prepare st)) 0 (prepare st) HI0 (le_n _)) as (st1 & E & HI1 & Hp & Hstop & Hi1 & Hi2).
     rewrite E. exists (finalize st1). cbn [finalize p_sol p_polls p_ins prepare] in *.
-    split; [reflexivity|]. split; [apply step_finalize; exact HI1|]. split; [reflexivity|]. auto.
+    split; [reflexivity|]. split; [apply step_drop_empty; apply step_finalize; exact HI1|]. split; [reflexivity|]. auto.
   Qed.
 
   (* the quota is already true at the first poll: nothing is inserted, every pending job is reported unassigned *)
   Theorem process_quota_first st :
     q (p_polls st) = true ->
     exists st', process ev q st = Some st'
-                /\ h_routes (p_sol st') = h_routes (p_sol st)
+                /\ h_routes (p_sol st') = h_routes (step (p_sol st) HDropEmpty)
                 /\ p_ins st' = p_ins st
                 /\ p_polls st' <= S (p_polls st)
                 /\ h_required (p_sol st') = []
